@@ -199,12 +199,19 @@ def run(ctx, report):
     R3 = report.rule('C03.D3', 'special cases mirrored between decoder/printer and assembler are inverse', floor=8)
     so = arch.method('x86_mn', 'special_opcodes')
     dis_map = asm_map = None
-    for n in walk_no_nested(so):
-        if isinstance(n, ast.Assign) and u(n.targets[0]) == 'x_0f_ae' and isinstance(n.value, ast.Dict):
-            dis_map = dict((k.value, u(v)) for k, v in zip(n.value.keys, n.value.values))
-    for n in walk_no_nested(ac):
-        if isinstance(n, ast.Assign) and u(n.targets[0]) == 'x_0f_ae' and isinstance(n.value, ast.Dict):
-            asm_map = dict((k.value, v.value) for k, v in zip(n.value.keys, n.value.values))
+    # (the two tables may sit in the functions or at module level; the decoder's maps names to row copies, the assembler's to names)
+    for n in ast.walk(arch.tree):
+        if isinstance(n, ast.Assign) and len(n.targets) == 1 and isinstance(n.targets[0], ast.Name) and isinstance(n.value, ast.Dict) and n.value.keys \
+                and all(isinstance(k, ast.Constant) and isinstance(k.value, str) for k in n.value.keys):
+            nm_ = n.targets[0].id
+            used_dis = any(isinstance(x, ast.Name) and x.id == nm_ for x in ast.walk(so))
+            used_asm = any(isinstance(x, ast.Name) and x.id == nm_ for x in ast.walk(ac))
+            if all(isinstance(v, ast.Attribute) and u(v).startswith('x86mndb.') for v in n.value.values) and used_dis \
+                    and all('fence' in u(v) for v in n.value.values):
+                dis_map = dict((k.value, u(v)) for k, v in zip(n.value.keys, n.value.values))
+            elif all(isinstance(v, ast.Constant) and isinstance(v.value, str) for v in n.value.values) and used_asm and asm_map is None \
+                    and any('fence' in k.value for k in n.value.keys):
+                asm_map = dict((k.value, v.value) for k, v in zip(n.value.keys, n.value.values))
     if dis_map is None or asm_map is None:
         raise AnalysisError('x_0f_ae tables not found')
     # x86mndb.<fence>_m objects are renamed copies: resolve their names from __init__
@@ -236,15 +243,57 @@ def run(ctx, report):
         else:
             R3.violation(inst, 'renamed-copy:%s' % nm, 'the decoder renames an instruction to %r (x86mndb.%s), a name no table row carries and asm_candidates does not map back: '
                          'its rendering does not assemble' % (nm, attr), where(arch, so), witness="dis(66 9c) is 'pushfw'; asm('pushfw') == []")
-    # movlps/movhps register forms
+    # movlps/movhps register forms: the renderer renames them movhlps/movlhps, the assembler maps the names back.  Both renamings are evaluated from the
+    # statements that assign the name (whatever table or if-chain they use).
+    from ..consteval import Evaluator as _Ev3, Obj as _Obj3, NotConst as _NC3, PyRaise as _PR3
     strm = arch.method('x86_mn', '__str__')
-    st_txt, ac_txt = u(strm), u(ac)
+    scope3 = dict((k_, v_) for k_, v_ in E.items() if isinstance(v_, (str, int, bool, list, tuple, dict)) or v_ is None)
+    scope3['x86_afs'] = afs
+    for st_ in arch.tree.body:
+        # module-level tables built from other tables (dict([...]) of a comprehension)
+        if isinstance(st_, ast.Assign) and len(st_.targets) == 1 and isinstance(st_.targets[0], ast.Name) and st_.targets[0].id not in scope3:
+            try:
+                scope3[st_.targets[0].id] = _Ev3(scope3).ev(st_.value)
+            except (_NC3, _PR3):
+                pass
+
+    two_regs = [{afs.ad: False, afs.reg_xmm_base: 1, afs.size: afs.xmm}, {afs.ad: False, afs.reg_xmm_base + 1: 1, afs.size: afs.xmm}]
+    reg_mem = [{afs.ad: False, afs.reg_xmm_base: 1, afs.size: afs.xmm}, {afs.ad: afs.f64, 0: 1, afs.size: afs.f64}]
     for a, b in (('movlps', 'movhlps'), ('movhps', 'movlhps')):
         inst = 'rename:%s' % b
-        if ("mnemo[0] == '%s'" % a in st_txt and "mnemo[0] = '%s'" % b in st_txt) and ("if name == '%s'" % b in ac_txt and "name = '%s'" % a in ac_txt):
-            R3.ok(inst, sample='%s reg,reg printed as %s and assembled back through %s' % (a, b, a))
+        # renderer: the statements of the MMX block of __str__ that assign mnemo[0]
+        blk = [n for n in strm.body if isinstance(n, ast.If) and u(n.test) == 'self.m.modifs[mmx]']
+        if not blk:
+            raise AnalysisError('x86_mn.__str__: the MMX block was not found')
+        got = {}
+        for label, ops in (('reg', two_regs), ('mem', reg_mem)):
+            me3 = _Obj3('self')
+            me3.arg = [dict(x) for x in ops]
+            loc = {'self': me3, 'mnemo': [a]}
+            for st_ in blk[0].body:
+                if any(isinstance(x, ast.Assign) and u(x.targets[0]) == 'mnemo[0]' for x in ast.walk(st_)):
+                    try:
+                        _Ev3(scope3).exec_stmts([st_], loc)
+                    except (_NC3, _PR3):
+                        pass
+            got[label] = loc['mnemo'][0]
+        # assembler: the statements of asm_candidates that assign name
+        loc = {'name': b, 'args_eval': [dict(x) for x in two_regs], 'args': [dict(x) for x in two_regs]}
+        sk = 0
+        for st_ in ac.body:
+            if any(isinstance(x, ast.Assign) and u(x.targets[0]) == 'name' for x in ast.walk(st_)):
+                try:
+                    _Ev3(scope3).exec_stmts([st_], loc)
+                except (_NC3, _PR3):
+                    sk += 1
+        back = loc['name']
+        if got == {'reg': b, 'mem': a} and back == a:
+            R3.ok(inst, sample='%s reg,reg printed as %s (the memory form keeps %s) and assembled back through %s' % (a, b, a, a))
+        elif back != a and sk:
+            raise AnalysisError('asm_candidates: %d statements that assign `name` are outside the evaluable subset; the %s/%s clause cannot be decided' % (sk, a, b))
         else:
-            R3.violation(inst, 'rename:%s' % b, 'the %s/%s renaming is no longer mirrored in __str__ and asm_candidates' % (a, b), where(arch, ac))
+            R3.violation(inst, 'rename:%s' % b, 'the %s/%s renaming is no longer mirrored in __str__ and asm_candidates: %s with two registers is rendered %s (memory form: %s) and '
+                         'the assembler maps %s to %s' % (a, b, a, got.get('reg'), got.get('mem'), b, back), where(arch, ac))
     # implicit-operand lists: both directions test membership in the same module-level list
     na = arch.method('x86_mn', 'normalize_args')
     for lst in ('float_st_mnemo', 'float_arith_p', 'float_arith', 'float_st_st1', 'rep_sto_lod_sca', 'rep_mov_cmp'):
@@ -533,10 +582,10 @@ def run(ctx, report):
     asm_names = set(n.id for f_ in asm_side if f_ is not None for n in ast.walk(f_) if isinstance(n, ast.Name))
     # the /digit and the reg,r/m branches of both sides: a rejection in one branch of the decoder is mirrored in the same branch of the assembler
     def digit_if(fn):
-        for n in walk_no_nested(fn):
-            if isinstance(n, ast.If) and u(n.test).replace(' ', '') == 'afsin[d0,d1,d2,d3,d4,d5,d6,d7]':
-                return n
-        raise AnalysisError('%s: the /digit branch was not found' % fn.name)
+        n = X.digit_branch(fn)
+        if n is None:
+            raise AnalysisError('%s: the /digit branch was not found' % fn.name)
+        return n
     d_dis, d_asm = digit_if(dis_), digit_if(ac)
     dis_digit_ids = set(id(x) for st in d_dis.body for x in ast.walk(st))
     asm_digit_names = set(n.id for st in d_asm.body for n in ast.walk(st) if isinstance(n, ast.Name))
